@@ -124,3 +124,12 @@ Theorem c05_protocol_functions_are_source :
      SIf [] (GBin "!=" (GVar "r") GNil) [SExpr (GCall "t.rootDecRef" [GVar "r"])] []].
 Proof. exact DecProto.protocol_functions. Qed.
 Print Assumptions c05_protocol_functions_are_source.
+
+From GK Require Import DecPins.
+(* a reader holds its version for the whole call: the pin is released by defer *)
+Theorem c05_readers_hold_their_pin_is_source :
+  forallb pinned_by_defer
+    ["Collection.GetItem"; "Collection.GetTotals"; "Collection.VisitItemsAscendEx"; "Collection.VisitItemsDescendEx";
+     "Store.walk"; "Collection.MarshalJSON"] = true.
+Proof. exact DecPins.readers_hold_their_pin. Qed.
+Print Assumptions c05_readers_hold_their_pin_is_source.
